@@ -229,7 +229,9 @@ def kindOf : String → Option Kind
 def kindStr : Kind → String
   | .pd => "pd" | .grad => "grad" | .div => "div" | .lap => "lap"
 
-/-- `cfg act=adjoint|derivative kind= method= pad= c=` → the instance the code returns:
+/-- LEGACY (driver op `cfgh`, not in the correspondence stream since round 5): the hand-written
+twins `Op.adjoint` / `Op.derivative`.
+`cfgh act=adjoint|derivative kind= method= pad= c=` → the instance the code returns:
 `ok linear=<of the instance> neg=0|1 kind= method= pad= c= rlinear=<of the result>`, or
 `err:value linear=…`. -/
 def doCfg (l : Line) : Option String := do
@@ -251,7 +253,7 @@ def doCfg (l : Line) : Option String := do
   | "derivative" => some (show' o.derivative)
   | _ => none
 
-/-- `cfgg …`: as `cfg`, but the returned instance is computed by `Op.adjointBy` /
+/-- `cfg …` (alias `cfgg`): the returned instance is computed by `Op.adjointBy` /
 `Op.derivativeBy` from the GENERATED `adjSpec` / `derivSpec` (round 4), not by the hand-written
 `Op.adjoint` / `Op.derivative`. -/
 def doCfgG (l : Line) : Option String := do
@@ -303,8 +305,9 @@ def handle (l : Line) : Option String :=
   | "nd" => doNd l
   | "ndn" => doNdN l
   | "tables" => doTables l
-  | "cfg" => doCfg l
+  | "cfg" => doCfgG l
   | "cfgg" => doCfgG l
+  | "cfgh" => doCfg l
   | "inner" => doInner l
   | "supported" => doSupported l
   | _ => none
